@@ -77,6 +77,14 @@ def proj_check(kind, case, rec):
     rec.require("project-shape", proj.shape == (npts,) + ts, [proj.shape, (npts,) + ts])
     if proj.shape == (npts,) + ts:
         rec.close("project-own-space=nodal-values", float(np.abs(proj.reshape(npts, size) - vals)[used].max()), 1e-8, {"kind": kind, "order": case["order"]})
+    # average=False: values on the disconnected mesh (one set of nodal values per cell, no averaging across cells)
+    if not kind.endswith("mini"):
+        pd_ = np.asarray(fem.project(vq_t, region, average=False))
+        cells = np.asarray(mesh.cells)
+        ref = vals[cells].reshape((cells.size,) + ts)
+        rec.require("project(average=False)-shape", pd_.shape == ref.shape, [pd_.shape, ref.shape])
+        if pd_.shape == ref.shape:
+            rec.close("project(average=False)=per-cell-nodal-values", float(np.abs(pd_ - ref).max()), 1e-8, {"kind": kind})
     # arbitrary data: the volume integral is preserved
     w = rng.standard_normal(ts + region.dV.shape)
     pw = np.asarray(fem.project(w, region)).reshape(npts, size)
@@ -241,6 +249,15 @@ def stress_check(kind, case, rec):
                 s = ref - np.trace(ref) / 3 * np.eye(3).reshape(3, 3, 1, 1)
                 vm = np.sqrt(1.5 * (s * s).sum((0, 1)))
                 rec.close("view:von-mises", float(np.abs(np.asarray(cd[f"Equivalent of {lab}"]).ravel() - vm.mean(0)).max()) / sc, 1e-9)
+        if case["seed"] % 2 and lab in cd:
+            # the same view with a projection to the points: point data = the named quantity shifted to the points
+            vp = fem.ViewSolid(fc, solid=solid, stress_type=stype, project=fem.topoints)
+            pdv = vp.mesh.point_data
+            rec.require("view(project):point-labels", lab in pdv and lab not in vp.mesh.cell_data, list(pdv.keys()))
+            if lab in pdv:
+                refp = np.asarray(fem.topoints(voigt(ref), region))
+                gotp = np.asarray(pdv[lab])
+                rec.close("view(project):stress-at-points(voigt)", float(np.abs(gotp - refp).max()) / sc if gotp.shape == refp.shape else float("inf"), 1e-11)
         if "Deformation Gradient" in cd:
             Fc = np.asarray(cd["Deformation Gradient"]).reshape(-1, 3, 3)
             # a non-symmetric 3x3 cell tensor handed to pyvista is stored in VTK's column-major matrix convention: reading
